@@ -146,6 +146,10 @@ type Interp struct {
 	onceDone    map[string]bool
 	sched       *sched
 	atomicSeq   int
+	approxFmt   int
+	syncMaps    map[string]*MapV
+	pools       map[string][]Value
+	readers     map[string]int
 	lastStore   map[string]int
 	heldMutex   map[string]bool
 	violCount   map[string]int
